@@ -9,7 +9,8 @@ import subprocess
 import sys
 import time
 
-ROOT = "/verif"
+# VERIF_ROOT: a scratch copy of this directory (development in parallel to running checks); unset: /verif
+ROOT = os.environ.get("VERIF_ROOT", "/verif")
 # VERIF_SANDBOX=<dir>: run the same machinery against <dir>/repo (a scratch worktree), building into <dir>/build and
 # writing results, caches and evidence below <dir> -- used by lib/selftest.py so that seeded changes never touch
 # /repo, /verif/build or /verif/evidence.  Unset (the registered commands): /repo and /verif.
